@@ -9,7 +9,7 @@ use vcore::driver::{BothBuilds, Ctx, Outcome, PropDef, Tier, Violation};
 use vcore::ref_pack;
 use vcore::{util, Tally};
 
-const NAMES: [&str; 4] = ["", "a", "FE9ArcTest1.bin", "日本"];
+const NAMES: [&str; 5] = ["", "a", "FE9ArcTest1.bin", "日本", "ﾂｱ.bin"];
 const LENS: [usize; 8] = [0, 1, 31, 32, 33, 63, 64, 65];
 
 fn body(file_index: usize, len: usize) -> Vec<u8> {
@@ -19,12 +19,12 @@ fn body(file_index: usize, len: usize) -> Vec<u8> {
 fn all_cases() -> Vec<Vec<(usize, usize)>> {
     // (name index, length index) lists, names distinct
     let mut name_lists: Vec<Vec<usize>> = vec![vec![]];
-    for a in 0..4 {
+    for a in 0..NAMES.len() {
         name_lists.push(vec![a]);
-        for b in 0..4 {
+        for b in 0..NAMES.len() {
             if b != a {
                 name_lists.push(vec![a, b]);
-                for c in 0..4 {
+                for c in 0..NAMES.len() {
                     if c != a && c != b {
                         name_lists.push(vec![a, b, c]);
                     }
@@ -154,7 +154,7 @@ fn explore(ctx: &Ctx) -> Outcome {
     }
     total.sample(json!({"case": cases[cases.len() / 2]}));
     let mut o = total.into_outcome(
-        "ALL ordered maps of 0..=3 files with distinct names from {\"\", a, FE9ArcTest1.bin, 日本} and lengths from {0,1,31,32,33,63,64,65} (position-dependent contents), plus archives of 255/256/4096/4097/5000 (65 535 thorough) files; oracles: parse(serialize(m)) == m in order, strict reference reader of the image (count, names, offsets, sizes, 32-byte alignment), and parse of all 16 conforming re-arrangements written by the reference builder (names before/after bodies, either order, gaps); non-trivial = non-empty map",
+        "ALL ordered maps of 0..=3 files with distinct names from {\"\", a, FE9ArcTest1.bin, 日本, ﾂｱ.bin (half-width katakana pair: its Shift-JIS bytes are also valid UTF-8)} and lengths from {0,1,31,32,33,63,64,65} (position-dependent contents), plus archives of 255/256/4096/4097/5000 (65 535 thorough) files; oracles: parse(serialize(m)) == m in order, strict reference reader of the image (count, names, offsets, sizes, 32-byte alignment), and parse of all 16 conforming re-arrangements written by the reference builder (names before/after bodies, either order, gaps); non-trivial = non-empty map",
         true,
         vec![("layers", json!(layers))],
     );
